@@ -13,26 +13,26 @@ open NS Manager SwitchLifecycle
 
 /-- a new request is never filed over a pending one (CLI, external worker and automatic failover all
 go through the same create-if-absent) -/
-theorem no_overwrite (k : Keys) (req : Switch) (h : k.switch.isSome) : file k req = (k, false) := by
-  sorry
+theorem no_overwrite (k : Keys) (req : Switch) (h : k.switch.isSome) : file k req = (k, false) :=
+  ManagerLemmas.no_overwrite k req h
 
 theorem file_when_free (k : Keys) (req : Switch) (h : k.switch = none) :
-    file k req = ({ k with switch := some req }, true) := by
-  sorry
+    file k req = ({ k with switch := some req }, true) :=
+  ManagerLemmas.file_when_free k req h
 
 /-- time-out bound (any request): at the first iteration of an active manager later than
 `initiated_at + switchover_timeout` the request leaves `switch` and is recorded as rejected -/
 theorem timeout_bound (cfg : Cfg) (i : In) (k : Keys) (sw : Switch)
     (ha : ActiveManager i) (hs : k.switch = some sw) (ht : timedOut cfg i.now sw = true)
     (hlight : ¬ (sw.failoverType = true ∧ i.maint = .record true true false)) :
-    (tick cfg i k).switch = none ∧ (tick cfg i k).lastRejected = some sw ∧ (tick cfg i k).lastOk = k.lastOk := by
-  sorry
+    (tick cfg i k).switch = none ∧ (tick cfg i k).lastRejected = some sw ∧ (tick cfg i k).lastOk = k.lastOk :=
+  ManagerLemmas.timeout_bound cfg i k sw ha hs ht hlight
 
 /-- attempt bound (planned switchovers): once `run_count` has reached the limit the request is rejected -/
 theorem attempt_bound (cfg : Cfg) (i : In) (k : Keys) (sw : Switch)
     (ha : ActiveManager i) (hs : k.switch = some sw) (ht : timedOut cfg i.now sw = false) (ho : overLimit cfg sw = true) :
-    (tick cfg i k).switch = none ∧ (tick cfg i k).lastRejected = some sw ∧ (tick cfg i k).lastOk = k.lastOk := by
-  sorry
+    (tick cfg i k).switch = none ∧ (tick cfg i k).lastRejected = some sw ∧ (tick cfg i k).lastOk = k.lastOk :=
+  ManagerLemmas.attempt_bound cfg i k sw ha hs ht ho
 
 /-- an approved request is not re-judged on retry: with `run_count > 0` (below the limit, not timed
 out) the attempt is started whatever the current quorum is -/
@@ -40,8 +40,8 @@ theorem approved_once (cfg : Cfg) (i : In) (sw : Switch)
     (ha : ActiveManager i) (hs : i.sw = .record sw) (hr : sw.runCount > 0)
     (ht : timedOut cfg i.now sw = false) (ho : overLimit cfg sw = false)
     (hlight : ¬ (sw.failoverType = true ∧ i.maint = .record true true false)) :
-    Step.switchStarted true ∈ (stateManager cfg i).steps ∧ Step.switchRejected ∉ (stateManager cfg i).steps := by
-  sorry
+    Step.switchStarted true ∈ (stateManager cfg i).steps ∧ Step.switchRejected ∉ (stateManager cfg i).steps :=
+  ManagerLemmas.approved_once cfg i sw ha hs hr ht ho hlight
 
 /-- each failed attempt is counted exactly once and keeps the request pending -/
 theorem each_failure_counted (cfg : Cfg) (i : In) (k : Keys) (sw : Switch)
@@ -50,7 +50,8 @@ theorem each_failure_counted (cfg : Cfg) (i : In) (k : Keys) (sw : Switch)
     (hlight : ¬ (sw.failoverType = true ∧ i.maint = .record true true false)) :
     (tick cfg i k).switch = some { sw with runCount := sw.runCount + 1 } ∧
     (tick cfg i k).lastOk = k.lastOk ∧ (tick cfg i k).lastRejected = k.lastRejected := by
-  sorry
+  have _ := ho  -- implied by `happ`
+  exact ManagerLemmas.each_failure_counted cfg i k sw ha hs ht happ hp hlight
 
 /-- exactly one terminal outcome per iteration: a request leaves `switch` through exactly one of
 "recorded as succeeded", "recorded as rejected", "removed by the operator meanwhile", and the two
@@ -59,30 +60,32 @@ theorem one_terminal_outcome (cfg : Cfg) (i : In) (k : Keys) (sw : Switch)
     (hs : k.switch = some sw) (hgone : (tick cfg i k).switch = none) :
     ((tick cfg i k).lastOk = some sw ∧ (tick cfg i k).lastRejected = k.lastRejected ∧ i.perform = .ok) ∨
     ((tick cfg i k).lastRejected = some sw ∧ (tick cfg i k).lastOk = k.lastOk) ∨
-    ((tick cfg i k).lastOk = k.lastOk ∧ (tick cfg i k).lastRejected = k.lastRejected ∧ i.perform = .abortedMeanwhile) := by
-  sorry
+    ((tick cfg i k).lastOk = k.lastOk ∧ (tick cfg i k).lastRejected = k.lastRejected ∧ i.perform = .abortedMeanwhile) :=
+  ManagerLemmas.one_terminal_outcome cfg i k sw hs hgone
 
 /-- a pending request is only ever touched by the lock holder -/
 theorem only_lock_holder_touches (cfg : Cfg) (i : In) (k : Keys)
-    (h : i.connected = false ∨ i.lockHeld = false) : tick cfg i k = k := by
-  sorry
+    (h : i.connected = false ∨ i.lockHeld = false) : tick cfg i k = k :=
+  ManagerLemmas.only_lock_holder_touches cfg i k h
 
 /-- recorded as succeeded only when the switchover procedure reported success in this iteration -/
 theorem success_needs_perform_ok (cfg : Cfg) (i : In) (k : Keys) (sw : Switch)
-    (h : (tick cfg i k).lastOk = some sw) (hne : k.lastOk ≠ some sw) : i.perform = .ok ∧ k.switch = some sw := by
-  sorry
+    (h : (tick cfg i k).lastOk = some sw) (hne : k.lastOk ≠ some sw) : i.perform = .ok ∧ k.switch = some sw :=
+  ManagerLemmas.success_needs_perform_ok cfg i k sw h hne
 
 /-- bounded number of attempts for planned switchovers: with a limit `m > 0`, after at most
 `m - run_count + 1` iterations of active managers (whatever the procedure's outcomes, as long as it
-does not panic) the request has left `switch` -/
+does not panic) the request has left `switch` (at least one iteration is needed: `is ≠ []` — without it
+the statement is false for a request that is already past the limit, see Lemmas/ManagerTick.lean) -/
 theorem planned_switchover_bounded (cfg : Cfg) (is : List In) (k : Keys) (sw : Switch)
     (hm : cfg.switchoverMaxAttempts > 0) (hp : sw.failoverType = false)
     (hs : k.switch = some sw)
-    (hall : ∀ i ∈ is, ActiveManager i ∧ i.perform ≠ .panicked ∧ (∃ m, i.master = some m ∧ (i.dcs.get? m).isSome))
+    (hall : ∀ i ∈ is, ActiveManager i ∧ i.perform ≠ .panicked)
+    (hne : is ≠ [])
     (hlen : (is.length : Int) ≥ cfg.switchoverMaxAttempts - sw.runCount + 1) :
     (is.foldl (fun k i => tick cfg i k) k).switch ≠ some sw ∧
-    ∀ sw', (is.foldl (fun k i => tick cfg i k) k).switch = some sw' → sw'.causeAuto = true := by
-  sorry
+    ∀ sw', (is.foldl (fun k i => tick cfg i k) k).switch = some sw' → sw'.causeAuto = true :=
+  ManagerLemmas.planned_switchover_bounded cfg is k sw hm hp hs hall hne hlen
 
 -- non-vacuity
 private def cfg0 : Cfg := ⟨true, 30, 3600, false, true, 1, 1800, 2⟩
